@@ -5,3 +5,6 @@ import BalmProofs.Props.C14
 #print axioms Balm.Impl.mem_ownAttrs
 #print axioms Balm.Impl.attractors_sound
 #print axioms Balm.Impl.attractors_complete
+#print axioms Balm.Skip.attach_weak
+#print axioms Balm.Impl.source_valuations_cover
+#print axioms Balm.Impl.valuation_trap
